@@ -1557,6 +1557,30 @@ class LuaMinifyTokenWriter(BaseLuaWriter):
         )
         self._last_was_name_keyword_number = False
         self._last_was_newline = True
+        self._last_code = b''
+        self._last_was_number = False
+
+    def _would_fuse(self, code):
+        """Tests whether code written directly after the previous token would
+        lex differently, such as "- -x" as a comment or "1 .. 2" as "1..2".
+
+        Args:
+          code: The code of the next symbol, number or string.
+
+        Returns:
+          True if a space is needed to keep the two tokens apart.
+        """
+        last = self._last_code
+        if not last or self._last_was_newline:
+            return False
+        if last.endswith(b'-') and code.startswith(b'-'):
+            return True
+        if code.startswith(b'.') and (last.endswith(b'.') or
+                                      self._last_was_number):
+            return True
+        if last == b'[' and code.startswith(b'['):
+            return True
+        return False
 
     def to_lines(self):
         """
@@ -1614,15 +1638,20 @@ class LuaMinifyTokenWriter(BaseLuaWriter):
                 self._last_was_newline = False
                 yield token.code
             elif token.matches(lexer.TokNumber):
-                if self._last_was_name_keyword_number:
+                if (self._last_was_name_keyword_number or
+                        self._would_fuse(token.code)):
                     yield b' '
                 self._last_was_name_keyword_number = True
                 self._last_was_newline = False
                 yield token.code
             else:
+                if self._would_fuse(token.code):
+                    yield b' '
                 self._last_was_name_keyword_number = token.code in b'])}'
                 self._last_was_newline = False
                 yield token.code
+            self._last_code = token.code
+            self._last_was_number = token.matches(lexer.TokNumber)
 
 
 class LuaFormatterTokenWriter(LuaASTEchoWriter):
